@@ -1,10 +1,14 @@
 """C08 — the SCC reader shows what a CEA-608 decoder displays, when it displays it.
 
-Theorems: coq/Properties/C08.v (stamps on the frame grid and inside the line's window, channel filter,
-doubled control codes) about M = coq/Model/SccReader.v.  Ties: M's document equals
-ttconv.scc.reader.to_model's on generated streams (oracle 1, evaluated inside Coq); the reference CEA-608
-decoder S = coq/Spec/Cea608Screen.v is compared with the implementation's document at every stable frame
-(oracle 2, inside Coq, two granularities S_word / S_line)."""
+Theorems: coq/Properties/C08.v (stamps on the frame grid and inside the line's window, frames per word, channel
+filter, doubled control codes, pop-on / EDM / roll-up-depth protocol skeleton) about M = coq/Model/SccReader.v.
+Ties: M's document equals ttconv.scc.reader.to_model's on generated streams (oracle 1, evaluated inside Coq); the
+reference CEA-608 decoder S = coq/Spec/Cea608Screen.v is compared with the implementation's document at every
+frame around every line (oracle 2, inside Coq).  Oracle 2 per stream: the property as stated (the standard, one
+window per display-changing word, rows + characters + attributes); if that rejects the document, the same with the
+recorded deviations admitted, at granularities S_word / S_word with uncounted second copies / S_line and views
+full / characters / row order — a weaker oracle is only accepted when the executable trigger of a recorded finding
+that justifies the weakening fires on the stream (judge())."""
 import os, re, sys, json
 from fractions import Fraction
 import common as C
@@ -397,7 +401,7 @@ def gen_protocol(rng, kind=None):
     """one stream following one of the three protocols (or a sequence of them)"""
     kind = kind or rng.choice(["popon", "popon", "rollup", "painton", "mixed"])
     df = rng.random() < 0.5
-    dbl = rng.choice([0, 0, 1, 1, 2])
+    dbl = rng.choice([0, 0, 0, 1, 2])
     g = Gen(rng, dbl, pad_p=rng.choice([0, 0.1, 0.3]), ch2_p=rng.choice([0, 0, 0.15]))
     t = start_frame(rng, df)
     if kind == "popon": lines, _ = g.popon(t, rng.randint(1, 4), enm_p=rng.choice([1.0, 1.0, 0.5]))
@@ -459,16 +463,16 @@ def gen_wild(rng):
 # verdict of oracle 2 for one case
 # ------------------------------------------------------------------------------------------------
 NONE_CODE = -1000000000
-T_DUP, T_PADDUP, T_LATE, T_BASE, T_ITAL, T_CLEAR, T_DER, T_SPACE, T_ABOVE, T_NEGCUR, T_CLAMP, T_ROW0, T_OVER = [1 << i for i in range(13)]
+T_DUP, T_PADDUP, T_LATE, T_BASE, T_ITAL, T_CLEAR, T_DER, T_SPACE, T_ABOVE, T_NEGCUR, T_CLAMP, T_ROW0, T_OVER, T_CR = [1 << i for i in range(14)]
 FINDING_OF_FLAG = {T_DUP: "doubled-code-no-frame", T_PADDUP: "previous-word-survives-padding",
                    T_LATE: "text-shown-from-paragraph-begin", T_BASE: "rollup-base-row-forced-15",
                    T_ITAL: "midrow-italics-resets-colour", T_CLEAR: "painton-pac-clears-row", T_DER: "der-ignored",
                    T_SPACE: "painton-space-word-unstyled", T_ABOVE: "region-above-attached",
-                   T_OVER: "overwrite-keeps-element-style", T_NEGCUR: "pac-left-of-row-content", T_CLAMP: "pac-right-of-row-content", T_ROW0: "rollup-text-after-edm-row0"}
+                   T_OVER: "overwrite-keeps-element-style", T_CR: "cr-erases-non-rollup-caption", T_NEGCUR: "pac-left-of-row-content", T_CLAMP: "pac-right-of-row-content", T_ROW0: "rollup-text-after-edm-row0"}
 # findings whose effect on the text S does not emulate: a case on which one of them fires and no oracle accepts is
 # attributed to it (the generator produces such streams rarely)
 BLIND_FLAGS = T_NEGCUR | T_CLAMP | T_ROW0
-DEV_FLAGS = T_PADDUP | T_BASE | T_ITAL | T_CLEAR | T_DER
+DEV_FLAGS = T_PADDUP | T_BASE | T_ITAL | T_CLEAR | T_DER | T_CR
 
 
 def judge(codes):
@@ -607,7 +611,7 @@ def evaluate(prefix, cases):
 # ------------------------------------------------------------------------------------------------
 # the check
 # ------------------------------------------------------------------------------------------------
-PROOF_TARGETS = ["Proofs/C08/Stamps.vo", "Proofs/C08/Words.vo", "Model/SccReaderCases.vo", "Spec/Cea608Screen.vo"]
+PROOF_TARGETS = ["Proofs/C08/Stamps.vo", "Proofs/C08/Words.vo", "Proofs/C08/Protocol.vo", "Model/SccReaderCases.vo", "Spec/Cea608Screen.vo"]
 
 
 def proposed_findings():
@@ -622,28 +626,19 @@ def proposed_findings():
     return out
 
 
-def shrink(case, still_fails, rounds=8):
-    """delta debugging on the lines and words of a judged stream; still_fails(list of candidate cases) -> list of bool"""
+def shrink(case, still_fails):
+    """the shortest failing prefix (whole lines) of a judged stream: a prefix of a protocol stream still follows the
+    protocol, which deleting inner words or lines would not guarantee.  still_fails(candidates) -> list of bool"""
     df, sl = case["judged"]; ta = case["talign"]
     def mk(sl2):
         scc = "\n".join(tc_text(lab, df) + "\t" + " ".join("%04x" % w for w in ws) + "\n" for lab, ws in sl2)
         return dict(talign=ta, scc=scc, judged=(df, sl2), kind=case.get("kind"))
-    best = mk(sl)
-    for _ in range(rounds):
-        cur = best["judged"][1]; cands = []
-        for i in range(len(cur)):
-            if len(cur) > 1: cands.append(cur[:i] + cur[i + 1:])
-        for i, (lab, ws) in enumerate(cur):
-            step = max(1, len(ws) // 6)
-            for j in range(0, len(ws), step):
-                if len(ws) - step >= 1: cands.append(cur[:i] + [(lab, ws[:j] + ws[j + step:])] + cur[i + 1:])
-        cands = [mk(c) for c in cands][:60]
-        if not cands: break
-        flags = still_fails(cands)
-        smaller = [c for c, f in zip(cands, flags) if f]
-        if not smaller: break
-        best = min(smaller, key=lambda c: sum(len(ws) for _, ws in c["judged"][1]))
-    return best
+    cands = [mk(sl[:k]) for k in range(1, len(sl))]
+    if not cands: return case
+    flags = still_fails(cands)
+    for c, f in zip(cands, flags):
+        if f: return c
+    return case
 
 
 def main():
@@ -671,7 +666,9 @@ def main():
     cases = []
     for s in test_file_streams():
         for ta in range(4):
-            cases.append(dict(talign=ta, scc=s, kind="seed", judged=parse_scc_single_rate(s) if ta == 0 else None))
+            # the repository's literal streams exercise edge cases outside the protocols (text before any PAC, rows longer
+            # than 32 columns, ...): they are compared with M (oracle 1) and not judged by S
+            cases.append(dict(talign=ta, scc=s, kind="seed", judged=None))
     kinds = ["popon", "popon", "rollup", "painton", "mixed"]
     for i in range(n_proto):
         st = gen_protocol(rng, kinds[i % len(kinds)])
